@@ -1806,6 +1806,10 @@ def _record(res, r, tag):
         res.dist("examined-differs")
     if not r.wfB:
         res.dist("copy-not-wellformed")
+    # reach of the headline theorems on this very pair (evaluated by the Lean driver; counters only,
+    # no verdict depends on them)
+    for thm, where in sorted((r.ans.get("fragments") or {}).items()):
+        res.dist("theorem_fragment:%s:%s" % (thm, "in" if where == "in" else "out:" + where))
     h = r.hyp
     if h["wfA"] and h["uniqueA"] and h["assignOkA"]:
         res.dist("hyp:refl-hypotheses-hold(a)")
